@@ -19,6 +19,10 @@ Shape (A), two explorations executed on the real ``SourceCatalog`` /
    belongs to a sky aperture depends on WHICH position comes first (photutils converts the shape parameters at the
    first position), so a child that derives anything again from its sliced inputs instead of taking the parent's
    per-source values is seen; the SourceCatalog sky_* properties are evaluated on the wide-field WCS as well.
+   Neighbours are an axis of the variants too: 'crowd4c/m/n' are one crowded field (abutting segments, every aperture
+   covers pixels of another segment) under the three ``apermask_method``s, so that the aperture quantities (Kron,
+   circular, flux-fraction radii, windowed centroid, local background) of a child that lacks its neighbours are right
+   only if the child still takes the neighbours from the segmentation image.
    An index form is a VALUE (which positions, which order) in a CONTAINER (Python
    int / list / bools, numpy scalars and arrays of several integer widths, 0-d
    array, list of numpy scalars ...): the two are crossed in full, and what an
@@ -73,11 +77,25 @@ RULE = ('commutation: full product catalog variant x pre-cache set x index form 
         'converted from the sky aperture depends on which position is first, so every index form that does not keep the '
         'parent\'s first source first (counted in coverage.sky_first_position) separates "the parent\'s per-source values" '
         'from "what a catalog built from the sliced inputs would report".  SourceCatalog: rich4 carries the wide-field WCS '
-        '(sky_centroid*, sky_bbox_*), single the constant-scale one, plain4 / hard6 none.  A history is non-trivial when the index selects >= 1 source and either '
-        'something was cached before indexing or the child is scalar / reordered.  independence: BFS over '
+        '(sky_centroid*, sky_bbox_*), single the constant-scale one, plain4 / hard6 / crowd4* none.  Neighbours: the '
+        'variants crowd4c / crowd4m / crowd4n are one crowded field (four abutting segments 7-3-4-11 with interlocking '
+        'bounding boxes; the Kron ellipse, the circles, the flux-fraction / windowed-centroid apertures and the '
+        'local-background annulus of every source cover pixels of one or two other segments -- measured, '
+        'coverage.crowd4_neighbours) x apermask_method {correct, mask, none}, so that every aperture quantity of a source '
+        'depends on how the pixels of the OTHER segments are treated; every index form that builds a child without such '
+        'a neighbour (all scalar children, [1], [2,0], masks, slices ...: coverage.crowd4_neighbours.*.index_forms_child_'
+        'lacks_a_neighbour, counters crowd_histories_child_lacks_a_neighbour:*) separates "neighbours = the other '
+        'segments of the segmentation image" from "neighbours = the other members of this catalog object".  Pre-cache '
+        'sets of the crowd4 variants: thorough -- nothing / {p} / everything / every private attribute for all three '
+        'methods, every public attribute for correct; quick -- nothing and everything cached for all three methods '
+        '(with everything cached the methods with an argument are still computed by the child), {p} for correct.  '
+        'A history is non-trivial when the index selects >= 1 source and either '
+        'something was cached before indexing or the child is scalar / reordered or (crowd4) the child lacks a '
+        'neighbour of one of its sources.  independence: BFS over '
         'extra-property histories on {parent, child}, states = digests of both instance __dict__s (date stamp '
         'excluded); non-trivial when the history contains an index and a mutation after it; every photometry method '
-        'run in a history is also compared per source with the fresh full catalog')
+        'run in a history is also compared per source with the fresh full catalog (photometry menu on the crowded field '
+        'crowd4c and on hard6; thorough also plain4 and crowd4m)')
 ASSUMPTIONS = ['numpy fancy indexing of a plain array / list comprehension is the reference for "take"',
                'what an index object means (mask or positions, scalar or sequence, valid or not) is what numpy does with '
                'that very object on np.arange(n) -- "cat.p[idx]" in the statement is numpy indexing of a per-source array',
@@ -105,6 +123,11 @@ ASSUMPTIONS = ['numpy fancy indexing of a plain array / list comprehension is th
                'parent\'s first position -- documented in SkyAperture._to_pixel_params); the statement makes the child '
                'report the same numbers, not those of a new ApertureStats built from aperture[idx].  How much the two '
                'differ is measured on the tree under test (coverage.sky_first_position), not assumed',
+               'neighbouring sources of a source (apermask_method) are the other non-zero labels of the segmentation '
+               'image the catalog was built from, whether or not they are members of the (sliced) catalog object: that is '
+               'what makes the parent\'s value the parent\'s value, and the statement makes the child report it.  Which '
+               'segments lie inside which aperture is measured on the tree under test for the evidence only; the oracle '
+               'is the fresh full catalog as everywhere',
                'the batch shortcut restores, besides the child\'s __dict__, the __dict__ of the catalogs the child holds '
                '(the sliced detection catalog): their lazily cached values are part of the post-index state']
 
@@ -198,6 +221,48 @@ def _image2(seed):
     return _SCENE2[seed]
 
 
+_SCENE3 = {}
+CROWD4_LABELS = (3, 4, 7, 11)                  # deliberately non-consecutive
+# the apermask_method axis of the crowded scene: variant name -> SourceCatalog(apermask_method=)
+CROWD4_METHODS = {'crowd4c': 'correct', 'crowd4m': 'mask', 'crowd4n': 'none'}
+CROWD4_KINDS = ('bright elongated source; abuts label 4 along a diagonal border (interlocking bounding boxes) and label 7',
+                'round source abutting labels 3 and 11', 'faint satellite that touches label 3 and lies inside its Kron '
+                'ellipse and its r = 6 circle', 'elongated source abutting label 4')
+
+
+def _image3(seed):
+    """Scene of the 'crowd4*' variants: a crowded field.  Four blended Gaussians whose segments (every pixel with
+    total model flux > 2 goes to the Gaussian that contributes most there -- structure independent of the seed up to the
+    sub-pixel jitter) touch each other: 7 - 3 - 4 - 11 is a chain of abutting segments with interlocking bounding boxes.
+    The Kron ellipse (semi-axes 4 ... 8 pix), the r = 6 circle, the windowed-centroid / flux-fraction apertures and the
+    local-background annulus of every source cover pixels of one or two OTHER segments (measured on the tree under test:
+    coverage.crowd4_neighbours), so every aperture quantity depends on how the neighbours are treated
+    (``apermask_method``: replaced by the mirror pixel / masked / left in).  A 2x2 block of user-masked pixels lies
+    inside label 3 where the pixels of label 4 are mirrored to ('correct': mirror value on a masked pixel)."""
+    if seed not in _SCENE3:
+        from astropy.modeling.models import Gaussian2D
+        rng = np.random.default_rng([seed, 810])
+        ny, nx = 32, 40
+        yy, xx = np.mgrid[0:ny, 0:nx]
+        img = rng.normal(0, 0.3, (ny, nx))
+        jit = rng.uniform(-0.3, 0.3, size=8)
+        gs = []
+        for k, (a, x0, y0, sx, sy, th) in enumerate([(80, 13.3, 13.8, 2.4, 1.7, 0.6), (55, 19.4, 16.6, 1.9, 1.9, 0.0),
+                                                     (30, 8.6, 19.4, 1.1, 1.1, 0.0), (60, 26.8, 20.6, 1.6, 2.1, 1.2)]):
+            gs.append(Gaussian2D(a, x0 + jit[2 * k], y0 + jit[2 * k + 1], sx, sy, th)(xx, yy))
+            img += gs[-1]
+        gs = np.array(gs)
+        seg = np.where(gs.sum(axis=0) > 2.0, np.array(CROWD4_LABELS)[np.argmax(gs, axis=0)], 0)
+        mask = np.zeros((ny, nx), bool)
+        mask[11:13, 8:10] = True
+        err = rng.uniform(0.8, 1.2, (ny, nx))
+        bkg = 0.1 + 0.01 * xx + 0.02 * yy
+        if tuple(np.unique(seg)[1:]) != CROWD4_LABELS:
+            raise RuntimeError(f'crowd4 scene has labels {np.unique(seg)}')
+        _SCENE3[seed] = (img, err, bkg, seg, mask)
+    return _SCENE3[seed]
+
+
 def _wcs():
     from astropy.wcs import WCS
     w = WCS(naxis=2)
@@ -245,7 +310,7 @@ def _wcs_sip():
     return w
 
 
-SC_VARIANTS = ('plain4', 'rich4', 'single', 'hard6')
+SC_VARIANTS = ('plain4', 'rich4', 'single', 'hard6') + tuple(CROWD4_METHODS)
 # sky apertures: 'sky3' on an ordinary (constant-scale) WCS; 'skywarp5' / 'skysip4' on a WCS whose scale and orientation
 # vary over the image -- a sky aperture has ONE set of shape parameters, photutils converts them to pixels with the scale
 # and angle at the FIRST position, so "the pixel aperture of the sources idx" is a function of the parent's first
@@ -266,6 +331,12 @@ def make_sc(variant, seed):
         # (no convolved_data: the shape of the thin line must come from the unsmoothed pixels)
         return SourceCatalog(img, SegmentationImage(segd), error=err, background=bkg, localbkg_width=4,
                              kron_params=(2.5, 1.4, 2.5))
+    if variant in CROWD4_METHODS:
+        # crowded field x apermask_method.  Minimum Kron radius 0.7 (default 1.4): the measured Kron radius itself --
+        # a first moment of the neighbour-corrected pixels -- is reported, not the clipped value
+        img, err, bkg, segd, mask = (a.copy() for a in _image3(seed))
+        return SourceCatalog(img, SegmentationImage(segd), error=err, background=bkg, mask=mask, localbkg_width=3,
+                             apermask_method=CROWD4_METHODS[variant], kron_params=(2.5, 0.7))
     img, err, bkg, conv, segd = (a.copy() for a in _image(seed))
     if variant == 'plain4':
         return SourceCatalog(img, SegmentationImage(segd), error=err, background=bkg, localbkg_width=3)
@@ -785,7 +856,18 @@ def forms_for(pre, n, tier):
 
 
 def pre_sets(cls, variant, tier, seed):
+    """Pre-cache sets of a variant.  The crowded-field variants (apermask_method axis) are a sub-product in the quick
+    tier: nothing cached (every aperture quantity is computed by the child, whose catalog lacks the neighbours) and
+    everything cached (the methods with an argument are still computed by the child, from the sliced centroids / local
+    backgrounds) for all three methods, {p} cached for the default method 'correct' only; the single-attribute sets are
+    explored in the thorough tier (private ones for all three methods, public ones for 'correct')."""
     public, private = prop_lists(cls, variant, seed)
+    if cls == 'SC' and variant in CROWD4_METHODS:
+        default = CROWD4_METHODS[variant] == 'correct'
+        if tier != 'thorough':
+            return [['none'], ['same'], ['all']] if default else [['none'], ['all']]
+        sets = [['none'], ['same'], ['all']] + [['one', q] for q in private]
+        return sets + ([['one', q] for q in public if q not in CATALOG_LEVEL] if default else [])
     sets = [['none'], ['same'], ['all']] + [['one', q] for q in private]
     if tier == 'thorough':
         sets += [['one', q] for q in public if q not in CATALOG_LEVEL]
@@ -931,6 +1013,49 @@ def _restore(child, snap, extras, nested=()):
             lst[:] = ex
 
 
+_NEIGH = {}
+APERTURES_MEASURED = ('kron_aperture', 'circle r=6.0', 'circle r=1.5', 'local_background_aperture', 'bbox')
+
+
+def crowd_neighbours(variant, seed):
+    """For a crowded-field variant: per source position, per aperture kind, the POSITIONS of the other sources whose
+    segment has a pixel inside that aperture ('center' mask) of the fresh full catalog -- measured on the tree under test
+    (evidence and the non-triviality counter only; the oracle never uses it).  {} if it cannot be measured."""
+    k = (variant, seed)
+    if k not in _NEIGH:
+        out = {}
+        try:
+            with warnings.catch_warnings():
+                warnings.simplefilter('ignore')
+                cat = make('SC', variant, seed)
+                seg = np.asarray(cat._segment_img.data)
+                labs = [int(x) for x in cat.labels]
+                aps = {'kron_aperture': list(cat.kron_aperture), 'circle r=6.0': list(cat.make_circular_apertures(6.0)),
+                       'circle r=1.5': list(cat.make_circular_apertures(1.5)),
+                       'local_background_aperture': list(cat.local_background_aperture)}
+                for name, lst in aps.items():
+                    out[name] = []
+                    for i, ap in enumerate(lst):
+                        inside = ap.to_mask('center').to_image(seg.shape) > 0
+                        out[name].append(sorted(labs.index(int(v)) for v in set(seg[inside].tolist()) - {0, labs[i]}))
+                out['bbox'] = [sorted(labs.index(int(v)) for v in set(seg[slc].ravel().tolist()) - {0, labs[i]})
+                               for i, slc in enumerate(cat.slices)]
+        except Exception as e:                  # the tree under test may be broken here
+            out = {'unmeasurable': f'{type(e).__name__}: {e}'}
+        _NEIGH[k] = out
+    return _NEIGH[k]
+
+
+def drops_neighbour(variant, seed, sel):
+    """True when the child (positions ``sel``) holds a source but not every source whose segment lies inside that
+    source's Kron aperture: the child can give the parent's answer only if it still looks at the segmentation image."""
+    nb = crowd_neighbours(variant, seed).get('kron_aperture')
+    if not nb:
+        return False
+    inside = {sel} if isinstance(sel, int) else set(sel)
+    return any(not set(nb[i]) <= inside for i in inside)
+
+
 def run_batch(acc, cls, variant, pre, form, seed):
     """All public p for one (pre-cache set, index form) with pre[0] in {none, all, one}: the parent is built, pre-cached
     and indexed ONCE; before each p the child's __dict__ is restored to the post-index snapshot.  A mismatch is
@@ -959,6 +1084,7 @@ def run_batch(acc, cls, variant, pre, form, seed):
         acc.state_keys.add(k0)
     nsel = 1 if isinstance(sel, int) else len(sel)
     nontrivial = nsel >= 1 and (pre[0] != 'none' or isinstance(sel, int) or sel != sorted(sel))
+    crowd_drop = cls == 'SC' and variant in CROWD4_METHODS and drops_neighbour(variant, seed, sel)
     if child is not None and wrong_selection(child, cls, variant, seed, form, sel):
         # the child does not hold the selected sources: one finding, not one per property
         acc.transitions += 3
@@ -976,7 +1102,9 @@ def run_batch(acc, cls, variant, pre, form, seed):
         acc.transitions += 3
         acc.traces += 1
         case = {'kind': 'commute', 'cls': cls, 'variant': variant, 'pre': pre, 'index': form, 'property': p}
-        acc.case(nontrivial=nontrivial, sample=case if acc.evaluations % 7919 == 11 else None)
+        acc.case(nontrivial=nontrivial or crowd_drop, sample=case if acc.evaluations % 7919 == 11 else None)
+        if crowd_drop:
+            acc.counters[f'crowd_histories_child_lacks_a_neighbour:{pre[0]}'] += 1
         v = None
         if child is None:
             v = True
@@ -1241,10 +1369,13 @@ def plan(tier, seed):
 
 def extras_plan(tier):
     """(variant, operation menu, BFS depth)"""
+    # photometry menu: the methods run on parent and child are judged per source against the fresh full catalog, so the
+    # scene matters: the crowded field (every aperture covers a neighbour's segment; 'correct' and 'mask') and hard6.
+    # quick: the crowded field stands in for plain4 (same number of sources, same constructor options + a mask)
     if tier == 'thorough':
         return [('plain4', 'basic', 5), ('single', 'basic', 5), ('plain4', 'photometry', 4), ('rich4', 'basic', 4),
-                ('hard6', 'photometry', 4)]
-    return [('plain4', 'basic', 4), ('single', 'basic', 4), ('plain4', 'photometry', 3), ('hard6', 'photometry', 3)]
+                ('hard6', 'photometry', 4), ('crowd4c', 'photometry', 4), ('crowd4m', 'photometry', 3)]
+    return [('plain4', 'basic', 4), ('single', 'basic', 4), ('crowd4c', 'photometry', 3), ('hard6', 'photometry', 3)]
 
 
 def run_unit(unit, tier, seed):
@@ -1389,7 +1520,23 @@ def describe(tier, seed):
     out['methods_with_arguments'] = {'SourceCatalog': list(SC_METHODS), 'ApertureStats': list(AS_METHODS)}
     out['hard6_sources'] = dict(zip(map(str, HARD6_LABELS), HARD6_KINDS))
     out['exceptional_sources'] = {v: exceptional_sources(v, seed) for v in SC_VARIANTS}
-    out['world_coordinates'] = {'SourceCatalog': {'plain4': None, 'hard6': None, 'single': 'constant-scale TAN, 0.72"/pixel',
+    out['crowd4_sources'] = dict(zip(map(str, CROWD4_LABELS), CROWD4_KINDS))
+    out['crowd4_apermask_method'] = dict(CROWD4_METHODS)
+    # which other sources (positions) have segment pixels inside each aperture of each source, measured on this tree,
+    # and how many of the index forms build a child that lacks such a neighbour of one of its sources
+    out['crowd4_neighbours'] = {}
+    for v in CROWD4_METHODS:
+        nb = dict(crowd_neighbours(v, seed))
+        sels = [select(f, 4) for f in index_forms(4)]
+        nb['index_forms_child_lacks_a_neighbour'] = sum(1 for st_, sel in sels if st_ == 'ok' and drops_neighbour(v, seed, sel))
+        nb['index_forms_child_has_all_neighbours'] = sum(1 for st_, sel in sels
+                                                         if st_ == 'ok' and not drops_neighbour(v, seed, sel))
+        out['crowd4_neighbours'][v] = nb
+    pcs = {v: [str(x) if x[0] != 'one' else 'one:' + ('_private' if x[1].startswith('_') else 'public')
+               for x in pre_sets('SC', v, tier, seed)] for v in CROWD4_METHODS}
+    out['pre_cache_sets_crowd4'] = {v: sorted(set(x), key=x.index) for v, x in pcs.items()}
+    out['world_coordinates'] = {'SourceCatalog': {'plain4': None, 'hard6': None, 'crowd4c/m/n': None,
+                                                  'single': 'constant-scale TAN, 0.72"/pixel',
                                                   'rich4': 'wide-field rotated TAN, 1.3 deg/pixel (via detection_cat)'},
                                 'ApertureStats': {'circ4': None, 'single': None, 'sky3': 'constant-scale TAN, 0.72"/pixel',
                                                   'skywarp5': 'wide-field rotated TAN, 1.3 deg/pixel',
